@@ -978,6 +978,19 @@ class Interp:
         return self.binary(_OPS[type(node.op)], a, b)
 
     def binary(self, op, a, b, inplace=False):
+        if isinstance(a, V.STime) or isinstance(b, V.STime):
+            if op in ("+", "-"):
+                def us(x):
+                    if isinstance(x, V.STime):
+                        return SInt(x.t)
+                    if isinstance(x, bool) or is_sym(x):
+                        raise Unsupported("time arithmetic with %r" % (x,))
+                    if isinstance(x, (int, float)):
+                        return int(round(x * 1000000))
+                    raise Unsupported("time arithmetic with %r" % (type(x).__name__,))
+                r = binop(op, us(a), us(b))
+                return V.STime(bv(r))
+            raise Unsupported("time arithmetic %s" % op)
         if op == "/" and is_sym(a) and isinstance(b, (int, float)) and not isinstance(b, bool) \
                 and b > 0 and float(b).is_integer():
             return Opaque("ratio", (a, int(b)))
